@@ -75,6 +75,8 @@ def generate(rng, idx, tier, variant):
         if rng.random() < 0.3:
             nm = rng.choice(prog['names'])
             ops.append({'op': 'poke', 'name': nm, 'pos': rng.randrange(n), 'v': rng.choice([0.0, -1.0, 1e308, 'nan', 'inf', 750.0])})
+            if rng.random() < 0.25:
+                ops[-1]['reassign'] = True  # the whole series assigned anew from a list (the container stores a new array)
         intr = {'line': rng.randint(1, 40 + 60 * rng.choice([1, 1, 2, 4]))} if rng.random() < 0.1 else None
         r = rng.random()
         if r < 0.6:
@@ -286,7 +288,13 @@ def execute(schedule, ctx):
             continue
         if op['op'] == 'poke':
             if op['name'] in names and 0 <= op['pos'] < n:
-                m.__dict__['_' + op['name']][op['pos']] = probes.fval(op['v'])
+                if op.get('reassign'):
+                    vals_ = m.__dict__['_' + op['name']].tolist()
+                    vals_[op['pos']] = probes.fval(op['v'])
+                    m[op['name']] = vals_
+                    ctx.probe('history:series-reassigned-from-a-list')
+                else:
+                    m.__dict__['_' + op['name']][op['pos']] = probes.fval(op['v'])
                 ctx.fault('data-corruption')
             ctx.log(step, 'poke', op['name'], op['pos'], op['v'])
             ctx.outcome('poke', 'ok')
